@@ -40,6 +40,7 @@ Same(sp, cp, K) ==
 Check ==
   LET e == Rec[i] IN
   IF ~("dash_ops" \in DOMAIN e) THEN PrintT(<<"NOOPS", i, e.id>>)
+  ELSE IF ~e.dash_finite THEN PrintT(<<"DRIFT", i, e.id, -1, -1>>)      \* NaN / infinite coordinates in the output
   ELSE LET K == e.k
            sps == Subpaths(e.ops)
            ok == \A k \in 1..Len(sps) : SubpathOK(sps[k]) /\ SubpathKOK(sps[k], K)
